@@ -25,6 +25,7 @@ type c16Case struct {
 
 func genC16(t *rapid.T) c16Case {
 	c := c16Case{Cfg: genLimitCfg(t, []string{"aimd", "vegas", "gradient", "gradient2", "settable", "fixed"}, true)}
+	genUnsetSafe(t, &c.Cfg)
 	n := rapid.IntRange(1, 120).Draw(t, "nops")
 	regs := 0
 	for i := 0; i < n; i++ {
